@@ -15,7 +15,7 @@
     "every call returns".  gen/ObPanics.v accounts for every explicit panic/assert site of
     the sources. *)
 From Coq Require Import List NArith ZArith QArith Bool.
-From JS Require Import Str Lit Json Res GoValue Hash Schema CodecBase Codec UnmarshalTotal Env Ann Validate Spec Refine Corollaries Defaults Uri Resolve ResolveTotal GoType Infer InferTotal.
+From JS Require Import Str Lit Json Res GoValue Hash Schema CodecBase Codec UnmarshalTotal Env Ann Validate Spec Refine Corollaries Defaults Uri Resolve ResolveTotal GoType Infer InferTotal NoPanic ResolveEnvOK.
 Import ListNotations.
 
 Theorem C10_validate_returns : forall re_match hash n e inst b,
@@ -27,6 +27,33 @@ Proof.
   rewrite (Validate_spec re_match hash n e inst b Hw Hv Hs). destruct b; [left|right]; reflexivity.
 Qed.
 Print Assumptions C10_validate_returns.
+
+(** Validate never panics on what Resolve returned: for every schema tree and loader table (maps
+    without duplicate keys), base URI, regexp oracle, hash function, instance and recursion budget.
+    The Resolved satisfies [EnvOK] ([C10_resolved_env_ok]: the node table is closed under the
+    children of a schema; every node has an info, its base is a node and so are the targets of its
+    anchors; every $ref / $dynamicRef holder has its resolved target recorded and the target is a
+    node), and over such an environment the evaluator takes none of its [Panic] branches
+    ([C10_evaluator_no_panic]: the lookups of resolvedInfos, of referenced schemas, of the dynamic
+    scope).  What remains possible is an error, a verdict, or - for schemas that recurse without
+    descending into the instance, which the property excludes - an exhausted budget. *)
+Theorem C10_validate_no_panic : forall re_ok re_match hash fuel root baseURI loader e calls vfuel inst,
+  wfs root -> (forall u s, call_loader loader u = Some s -> wfs s) ->
+  Resolve re_ok fuel root baseURI loader = Ok (e, calls) ->
+  Validate re_match hash vfuel e inst <> Panic.
+Proof. exact Resolve_Validate_no_panic. Qed.
+Print Assumptions C10_validate_no_panic.
+
+Theorem C10_resolved_env_ok : forall re_ok fuel root baseURI loader e calls,
+  wfs root -> (forall u s, call_loader loader u = Some s -> wfs s) ->
+  Resolve re_ok fuel root baseURI loader = Ok (e, calls) -> EnvOK e /\ isNode e (0%nat, []).
+Proof. exact Resolve_EnvOK. Qed.
+Print Assumptions C10_resolved_env_ok.
+
+Theorem C10_evaluator_no_panic : forall re_match hash e, EnvOK e ->
+  forall fuel stack inst l s, Node e l s -> Forall (isNode e) stack -> validate re_match hash fuel e stack inst l s <> Panic.
+Proof. exact validate_no_panic. Qed.
+Print Assumptions C10_evaluator_no_panic.
 
 (** Unmarshal: on every document the codec returns a schema or an error - the model has no
     Panic result here and the recursion budget (the document's size) always suffices *)
